@@ -191,10 +191,10 @@ impl C01 {
             }
         }
         cfgs.push((scfg(&[1], 1), Hist { retention: 0, rotations: 0, dup_attempt: true, advance: 0, pre: 0, init: 0 }, true));
-        // sets well beyond the small scope (33 signers; thorough also 100): no product over the
+        // sets well beyond the small scope (33 and 65 signers; thorough also 100): no product over the
         // status alphabet here but every single-position deviation from the all-valid proof, and
         // prefixes / suffixes of signers around the threshold
-        let mut large = vec![scfg(&[1; 33], 17), scfg(&[1; 33], 33)];
+        let mut large = vec![scfg(&[1; 33], 17), scfg(&[1; 33], 33), scfg(&[1; 65], 33)];
         if thorough {
             large.push(scfg(&[3; 100], 200));
         }
@@ -712,7 +712,7 @@ fn main() {
     main_for(|tier| {
         let s = C01::new(tier == "thorough");
         let mut o = Opts::new(tier, 1);
-        o.rule = "one submission from each base state; base states = 11 (quick) / 17 (thorough, adds 4-signer sets) signer configurations, plus 33-signer sets (thresholds 17 and 33; thorough also 100 signers) with every single-position deviation from the all-valid proof and signer prefixes / suffixes around the threshold, with boundary weights/thresholds x 14 histories (constructed with one or two initial sets in either order, retention 0-2 and u64::MAX, 0-3 real rotations after the set under test, 0 / 20 / 7,000,000 ledgers passing, message m1 already approved / already executed before the submission). Per base state: EVERY vector of per-signer status from {unsigned, valid, other domain separator, other command kind, other batch, other signer-set hash, other key, bit-flipped R, bit-flipped s} (9^N on the fresh gateway and, for N <= 3 or in the thorough tier, on every history; 3^N otherwise) through approve_messages and validate_proof; 10 tamperings of the declared set x {signatures over the true set's digest, over the tampered set's digest}; batches of 1, 2 and 2-with-duplicate-id, each also submitted with one field / one message changed relative to the signed batch. Oracle: independent predicate (set installed and retained, valid weight >= threshold) with independently recomputed digests".into();
+        o.rule = "one submission from each base state; base states = 11 (quick) / 17 (thorough, adds 4-signer sets) signer configurations, plus 33-signer sets (thresholds 17 and 33) and a 65-signer set (thorough also 100 signers) with every single-position deviation from the all-valid proof and signer prefixes / suffixes around the threshold, with boundary weights/thresholds x 14 histories (constructed with one or two initial sets in either order, retention 0-2 and u64::MAX, 0-3 real rotations after the set under test, 0 / 20 / 7,000,000 ledgers passing, message m1 already approved / already executed before the submission). Per base state: EVERY vector of per-signer status from {unsigned, valid, other domain separator, other command kind, other batch, other signer-set hash, other key, bit-flipped R, bit-flipped s} (9^N on the fresh gateway and, for N <= 3 or in the thorough tier, on every history; 3^N otherwise) through approve_messages and validate_proof; 10 tamperings of the declared set x {signatures over the true set's digest, over the tampered set's digest}; batches of 1, 2 and 2-with-duplicate-id, each also submitted with one field / one message changed relative to the signed batch. Oracle: independent predicate (set installed and retained, valid weight >= threshold) with independently recomputed digests".into();
         (s, o)
     });
 }
